@@ -1,10 +1,12 @@
 //! Correspondence harness: runs the real desert library (built from /repo's working tree)
 //! on case files and prints one canonical observation per case.
 mod catalogue;
+mod c17;
 mod codec;
 mod statics;
 mod sxv;
 mod dynval;
+mod graph;
 mod ioops;
 mod sx;
 mod util;
@@ -23,6 +25,8 @@ fn main() {
     match args[1].as_str() {
         "codec" => codec::cases(rest),
         "static" => statics::cases(rest),
+        "c17" => c17::run(rest),
+        "graph" => graph::cases(rest),
         "ioops" => ioops::cases(rest),
         "varint-cases" => varint::cases(rest),
         "varint-sweep" => varint::sweep(rest),
